@@ -543,9 +543,19 @@ func vfGenParse(t *rapid.T) vfGenCase31 {
 		}
 		f := vfFrame{Kind: "array", Args: [][]byte{}}
 		n := rapid.IntRange(0, 4).Draw(t, "n")
+		if rapid.IntRange(0, 5).Draw(t, "many") == 0 {
+			// many tiny elements actually delivered under a (possibly huge) declared count: a parser may
+			// start trusting the declared length once "enough" elements have arrived
+			n = rapid.IntRange(15, 70).Draw(t, "n-many")
+			for i := 0; i < n; i++ {
+				f.Args = append(f.Args, []byte(rapid.SampledFrom([]string{"", "a", "k1", "v"}).Draw(t, "tiny")))
+			}
+			n = 0
+		}
 		for i := 0; i < n; i++ {
 			f.Args = append(f.Args, vfGenArg(t, "arg"))
 		}
+		n = len(f.Args)
 		what := rapid.IntRange(0, 5).Draw(t, "what")
 		if what == 0 || what == 3 || what == 5 {
 			f.ArrayLen = vfGenLen(t, "alen", 24, &g.Excluded)
@@ -798,7 +808,7 @@ func vfGenConn(t *rapid.T) vfConnCase {
 func TestCheck(t *testing.T) {
 	s := &pbt.Suite{ID: "C31", Level: "exploration",
 		Rule: "parse: inputs are (a) streams of 1-4 well-formed frames (RESP arrays with binary/empty/CRLF-containing/8 KiB arguments, inline commands with blanks, one in five stretched to a line length at or around a multiple of 4096), " +
-			"(b) array frames with mutated declared lengths (negative, non-numeric, up to 99999999999999999999), truncations, (c) arbitrary bytes. " +
+			"(b) array frames (0-4 arbitrary or 15-70 tiny delivered elements) with mutated declared lengths (negative, non-numeric, up to 99999999999999999999), truncations, (c) arbitrary bytes. " +
 			"Oracle: parseRESP never panics; TotalAlloc delta of the calls <= 64*len(input)+64KiB (declared lengths are first probed clamped to 2^16, 2^22, 2^28, then literal); " +
 			"each well-formed frame yields exactly its argv and the stream ends with io.EOF. Non-trivial = a well-formed stream with >= 1 argument (distinct by bytes), " +
 			"or a malformed/mutated non-empty input (distinct by bytes). conn: the same classes written to a live gateway connection; ECHO payloads must come back byte-exact, " +
